@@ -1,7 +1,14 @@
 (* Gallina re-implementation of the statement translation of transpile/parser.py:
    _handle_assignment_ast, the if/while/for handlers of _parse_simple_lines with their
    child contexts, _promote_branch_decls, _make_promotion_decls, the two rewriters, the
-   break guard, and parse()'s setup/loop split.  [None] = the parser raises ValueError. *)
+   break guard, and parse()'s setup/loop split.  [None] = the parser raises ValueError.
+
+   Where declarations go ([glob] = the statement list is at setup depth 0 OR is the body of the main
+   `while True:` loop): a name first assigned there - directly, by a tuple assignment, or hoisted to that
+   level out of a nested block - is a sketch GLOBAL (ctx["globals"]); at setup depth 0 a name-free constant
+   becomes the static initialiser, in the main loop the global always gets the type's default value and the
+   assignment stays in place (it runs on every pass).  Anywhere deeper a first assignment is a local
+   VarDecl that the enclosing block hoists. *)
 From Coq Require Import ZArith List Bool.
 From RV Require Import Base.Wire Base.Text Lang.StmtAst.
 Import ListNotations.
@@ -52,6 +59,10 @@ Definition tr_assign (glob : bool) (x : ident) (e : ann) (s : tst) : list cnode 
       else ([NAssign x (XE (a_id e))],
             add_global {| g_name := x; g_ty := a_ty e; g_init := XDefault (a_ty e) |} s2)
     else ([NDecl x (a_ty e) (XE (a_id e)) false], s2).
+
+(* in the main-loop body no first assignment becomes a static initialiser: the value is assigned on every pass *)
+Definition rt_ann (main_loop : bool) (e : ann) : ann :=
+  if main_loop then {| a_id := a_id e; a_ty := a_ty e; a_const := false; a_fv := a_fv e |} else e.
 
 (* ---- tuple assignment ---- *)
 Fixpoint set_tys (xs : list ident) (es : list ann) (s : tst) : tst :=
@@ -105,9 +116,43 @@ Definition tr_tuple (glob : bool) (xs : list ident) (es : list ann) (s : tst) : 
       let '(binds, s3) := tuple_binds xs es' k s2 in
       Some (tmps ++ binds, s3).
 
+(* tuple assignment at the body level of the main loop: always through the temporaries; a NEW name is a global
+   with the default initialiser, assigned from its temporary *)
+Fixpoint tuple_binds_main (xs : list ident) (es : list ann) (k : Z) (s : tst) : list cnode * tst :=
+  match xs, es with
+  | x :: xr, e :: er =>
+      let s1 := if is_declared x s then s
+                else add_global {| g_name := x; g_ty := a_ty e; g_init := XDefault (a_ty e) |} (declare x s) in
+      let '(rest, s2) := tuple_binds_main xr er (k + 1) s1 in
+      (NAssign x (XTmp k) :: rest, s2)
+  | _, _ => ([], s)
+  end.
+
+Definition tr_tuple_main (xs : list ident) (es : list ann) (s : tst) : option (list cnode * tst) :=
+  if negb (Nat.leb (length xs) (length es)) then None
+  else
+    let es' := firstn (length xs) es in
+    let s1 := set_tys xs es' s in
+    let k := tmpc s1 in
+    let tmps := tuple_tmps es' k in
+    let s2 := with_tmpc (k + Z.of_nat (length es')) s1 in
+    let '(binds, s3) := tuple_binds_main xs es' k s2 in
+    Some (tmps ++ binds, s3).
+
 (* ---- promotion ---- *)
 Definition new_names (child parent_base : list ident) : list ident :=
   filter (fun x => negb (tmem x parent_base)) child.
+
+(* the default-initialised declaration [_make_promotion_decls] leaves in front of a nested block
+   (VarDecl(hoisted=True)); XDefault occurs in a node only there *)
+Definition is_hoisted (prom : list ident) (n : cnode) : bool :=
+  match n with NDecl x _ (XDefault _) false => tmem x prom | _ => false end.
+
+(* both rewriters DROP the hoisted declaration of a name the enclosing block hoists again (it used to become
+   `x = <default>;`, re-executed on every iteration / pass).  Such a node only ever stands at the top level of the
+   list being rewritten (its own block's rewrite has already removed the ones further in), so the model drops there. *)
+Definition drop_hoisted (prom : list ident) (l : list cnode) : list cnode :=
+  filter (fun n => negb (is_hoisted prom n)) l.
 
 (* _rewrite_nodes: replace declarations of promoted names by assignments, everywhere *)
 Fixpoint rewrite_deep (prom : list ident) (n : cnode) : cnode :=
@@ -135,7 +180,8 @@ Fixpoint rewrite_if (prom : list ident) (n : cnode) : cnode :=
   | _ => n
   end.
 
-(* _make_promotion_decls *)
+(* _make_promotion_decls: [glob] (setup depth 0 / main-loop body) - a global with the default value, no node;
+   deeper - a hoisted local declaration *)
 Fixpoint promo_decls (glob : bool) (names : list (ident * ty)) (s : tst) : list cnode * tst :=
   match names with
   | [] => ([], s)
@@ -194,9 +240,9 @@ Section Block.
               end
           end in
         match p with
-        | PAssign x e => continue_with (Some (tr_assign glob x e s))
+        | PAssign x e => continue_with (Some (tr_assign glob x (rt_ann main_loop e) s))
         | PAug x op e t_after => continue_with (Some ([NAssign x (XAug x op (a_id e))], with_ty x t_after s))
-        | PTuple xs es => continue_with (tr_tuple glob xs es s)
+        | PTuple xs es => continue_with (if glob && main_loop then tr_tuple_main xs es s else tr_tuple glob xs es s)
         | PBreak =>
             continue_with (match loop_depth with
                            | O => None
@@ -262,7 +308,7 @@ Section Block.
                     let s1 := {| declared := declared s; vtypes := vtypes s; globals := gl2; tmpc := tmpc s |} in
                     let s2 := fold_left (fun acc xt => with_ty (fst xt) (snd xt) acc) prom s1 in
                     let '(decls, s3) := promo_decls glob prom s2 in
-                    let rw := fun (ns : list cnode) => map (rewrite_if pn) ns in
+                    let rw := fun (ns : list cnode) => map (rewrite_if pn) (drop_hoisted pn ns) in
                     let brs' := map (fun x => (fst (fst x), rw (snd (fst x)))) brs in
                     let els' := match eo with Some (ns, _) => rw ns | None => [] end in
                     Some (decls ++ [NIf brs' els'], s3)
@@ -280,7 +326,7 @@ Section Block.
                 let s1 := {| declared := declared s; vtypes := vtypes s; globals := globals cs; tmpc := tmpc cs |} in
                 let s2 := fold_left (fun acc xt => with_ty (fst xt) (snd xt) acc) prom s1 in
                 let '(decls, s3) := promo_decls glob prom s2 in
-                Some (decls ++ [NWhile (a_id c) (map (rewrite_deep pn) ns)], s3)
+                Some (decls ++ [NWhile (a_id c) (map (rewrite_deep pn) (drop_hoisted pn ns))], s3)
              end)
         | PFor x cnt body =>
             let base := {| declared := declared s ++ (if is_declared x s then [] else [x]);
@@ -296,7 +342,7 @@ Section Block.
                 let s1 := {| declared := declared s; vtypes := vtypes s; globals := globals cs; tmpc := tmpc cs |} in
                 let s2 := fold_left (fun acc xt => with_ty (fst xt) (snd xt) acc) prom s1 in
                 let '(decls, s3) := promo_decls glob prom s2 in
-                Some (decls ++ [NFor x (a_id cnt) (map (rewrite_deep pn) ns)], s3)
+                Some (decls ++ [NFor x (a_id cnt) (map (rewrite_deep pn) (drop_hoisted pn ns))], s3)
              end)
         end
       end
@@ -315,7 +361,7 @@ Fixpoint ssize (p : pstmt) : nat :=
 Definition bsize (l : list pstmt) : nat := S (fold_right (fun p acc => (ssize p + acc)%nat) O l).
 
 (* parse(): top-level statements at scope=setup depth=0; the body of `while True:` in the SAME
-   context with scope=loop, depth=1, loop_depth=1, main_loop=True *)
+   context with scope=loop, depth=1, loop_depth=1, main_loop=True: its first assignments are globals too *)
 Definition transl (p : pprog) : option cprog :=
   match tr_block false (bsize (p_pre p)) true 0 st0 (p_pre p) with
   | None => None
@@ -323,7 +369,7 @@ Definition transl (p : pprog) : option cprog :=
       match p_main p with
       | None => Some {| c_globals := globals s1; c_setup := setup; c_loop := [] |}
       | Some body =>
-          match tr_block true (bsize body) false 1 s1 body with
+          match tr_block true (bsize body) true 1 s1 body with
           | None => None
           | Some (loop, s2) => Some {| c_globals := globals s2; c_setup := setup; c_loop := loop |}
           end
